@@ -17,3 +17,13 @@ Proof.
   - change 1 with (Z.of_N 1). rewrite of_N_mod_eqb0. reflexivity.
   - rewrite of_N_mod_eqb0. reflexivity.
 Qed.
+
+(* the goroutine of Subscribe skips a slot iff the model's filter drops it *)
+Lemma tie_future_slot (cur slot : N) :
+  (cur <? slot)%N = negb (subscriber_notFutureSlot (Z.of_N slot) (Z.of_N cur)).
+Proof. unfold subscriber_notFutureSlot. rewrite of_N_leb. lia. Qed.
+
+(* AttestAndScheduleAggregate skips an attestation of a past slot iff the model does *)
+Lemma tie_aggregation_in_past (cur aslot : N) :
+  (aslot <? cur)%N = controller_aggregationInPast (Z.of_N cur) (Z.of_N aslot).
+Proof. unfold controller_aggregationInPast. rewrite of_N_ltb. reflexivity. Qed.
